@@ -6,8 +6,10 @@
 
    [row_of_plan]: the columns of the plans table / search entry that Search reads.  Strings by their index,
    the submit time as Base.Plan has it (ns; coq/query's generator uses seconds - only the order matters),
-   the status by its wire code; a plan without a State (no vault holds one; Select calls it not Running)
-   gets the code of NotStarted. *)
+   the status by its wire code, State.Start / State.End as exact nanoseconds (Base.Plan writes the zero time
+   as 0, coq/query as zero_time_ns); a plan without a State (no vault holds one; Select calls it not
+   Running) gets the code of NotStarted and zero times.  The sqlite table holds the rows as sqlite stores
+   them (Rows.sq_cols: the time columns through int64), the cosmosdb search partition as they are. *)
 From Coq Require Import Lia Permutation Sorted.
 From Coercion.Base Require Import Plan.
 From Coercion.Select Require Rows Select.
@@ -22,13 +24,19 @@ Module QP := Coercion.Query.QueryProofs.
 Definition status_col (st : option state) : N :=
   match st with Some s => QR.status_code (s_status s) | None => QR.status_code NotStarted end.
 
+(* Base.Plan instant (0 = the zero time) -> nanoseconds since the Unix epoch *)
+Definition ns_of (t : Z) : Z := if Z.eqb t 0 then QR.zero_time_ns else t.
+Definition start_col (st : option state) : Z := match st with Some s => ns_of (s_start s) | None => QR.zero_time_ns end.
+Definition end_col (st : option state) : Z := match st with Some s => ns_of (s_end s) | None => QR.zero_time_ns end.
+
 Definition row_of_plan (p : plan) : QR.row :=
   {| QR.r_id := SR.pid p; QR.r_group := u_ix (p_group p); QR.r_name := t_ix (p_name p);
      QR.r_descr := t_ix (p_descr p); QR.r_submit := p_submit p; QR.r_status := status_col (p_state p);
+     QR.r_start := start_col (p_state p); QR.r_end := end_col (p_state p);
      QR.r_swarm := 0 |}.
 
 (* the plans table of a sqlite vault holding s; the search partition of a cosmosdb vault of swarm w *)
-Definition table_of (s : SR.store) : QR.table := map row_of_plan s.
+Definition table_of (s : SR.store) : QR.table := map (fun p => QR.sq_cols (row_of_plan p)) s.
 Definition cstore_of (w : N) (s : SR.store) : QR.cstore :=
   {| QR.cs_plans := map SR.pid s; QR.cs_search := map (fun p => QR.set_swarm w (row_of_plan p)) s |}.
 
@@ -44,6 +52,9 @@ Proof.
   destruct (p_state p) as [s|]; [|reflexivity]. destruct (s_status s); reflexivity.
 Qed.
 
+Lemma running_sq_cols r : is_running_row (QR.sq_cols r) = is_running_row r.
+Proof. reflexivity. Qed.
+
 Lemma filter_map {A B} (f : B -> bool) (g : A -> B) l : filter f (map g l) = map g (filter (fun x => f (g x)) l).
 Proof. induction l as [|x l IH]; simpl; [reflexivity|]. destruct (f (g x)); simpl; now rewrite IH. Qed.
 
@@ -53,7 +64,7 @@ Proof. intro H. induction l as [|x l IH]; simpl; [reflexivity|]. now rewrite H, 
 (* what the sqlite statement evaluates to on ANY table *)
 Lemma sq_search_running tb :
   QQ.sq_search running_filter tb
-  = Some (map QQ.SItem (map QQ.result_of_row (QQ.sort_desc (filter is_running_row tb))) ++ [QQ.SClose]).
+  = Some (map QQ.SItem (map QQ.sq_result_of_row (QQ.sort_desc (filter is_running_row tb))) ++ [QQ.SClose]).
 Proof.
   unfold QQ.sq_search. change (QQ.validate running_filter) with true. cbv iota.
   change (QQ.sq_build_search running_filter)
@@ -87,11 +98,14 @@ Qed.
 Lemma ids_of_results l : map QQ.x_id (map QQ.result_of_row l) = map QR.r_id l.
 Proof. rewrite map_map. reflexivity. Qed.
 
+Lemma ids_of_sq_results l : map QQ.x_id (map QQ.sq_result_of_row l) = map QR.r_id l.
+Proof. rewrite map_map. reflexivity. Qed.
+
 Lemma running_ids_table s :
   map QR.r_id (filter is_running_row (table_of s)) = SL.search_running s.
 Proof.
   unfold table_of, SL.search_running. rewrite filter_map, map_map.
-  rewrite (filter_ext' _ _ _ running_row_of_plan). reflexivity.
+  rewrite (filter_ext' _ SL.durably_running); [reflexivity|]. intro p. rewrite running_sq_cols. apply running_row_of_plan.
 Qed.
 
 Lemma running_ids_cstore w s :
@@ -135,8 +149,8 @@ Lemma search_running_is_query_sqlite s :
     Permutation (map QQ.x_id xs) (SL.search_running s) /\
     (newest_first_store s -> map QQ.x_id xs = SL.search_running s).
 Proof.
-  exists (map QQ.result_of_row (QQ.sort_desc (filter is_running_row (table_of s)))).
-  split; [apply sq_search_running|]. rewrite ids_of_results. split.
+  exists (map QQ.sq_result_of_row (QQ.sort_desc (filter is_running_row (table_of s)))).
+  split; [apply sq_search_running|]. rewrite ids_of_sq_results. split.
   - rewrite <- running_ids_table. apply Permutation_map, QP.sort_desc_perm.
   - intro H. rewrite sort_desc_sorted_id; [apply running_ids_table|].
     apply filter_sorted, sorted_table, H.
